@@ -11,6 +11,7 @@ import RV.Base.Proto
     sbind P N ov
     cq m U g | cqs m U g | qname m U | qstrict m U | curie m U g | n3 m U | expand S | reset m
     parse m P N P N …  | parsexml m P N P N … | ser m S P O
+    split strict U                       -> split <ns>l | err ValueError   (split_uri, stateless)
     serdoc m fb U g U g …                   -> doc <d>n …> (document prefix table), then reset m
 
   Output of every operation:  `<out>|L <p>n sorted>|P <p>n lookups>|N <n>p lookups>`
@@ -113,6 +114,14 @@ def step (d : D) (ws : List String) : D × String :=
     match vocab? r with
     | some (ps, ns) => ({ d with vp := ps, vn := ns }, "ok")
     | none => (d, "bad-op")
+  | ["split", strict, u] =>
+    -- stateless: `split_uri(u)` / `split_uri(u, NAME_START_CATEGORIES)`
+    match bool? strict, str? u with
+    | some b, some u =>
+      (d, (match splitUri (if b then Tables.nameStartCats else Tables.splitStartCats) u with
+           | some (n, l) => "split " ++ raw n ++ ">" ++ raw l
+           | none => "err ValueError") ++ listing d)
+    | _, _ => (d, "bad-op")
   | _ =>
     match parseOp ws with
     | none => (d, "bad-op")
